@@ -372,6 +372,9 @@ class _Sub:
     def note(self, m):
         self.rep.note(m)
 
+    def _unjudged(self, rid, key, msg):
+        self.rep._unjudged(self._r(rid), key, msg)
+
 
 def typed_callers(facts, rep):
     n = 0
